@@ -10,6 +10,7 @@ oracle         generated programs run under overriding probes (constant, context
 import json
 
 import core
+import m2corr
 import pylite
 import progrun
 import pyprog
@@ -124,6 +125,8 @@ def closures(chk, stats):
 
 
 def run(chk):
+    m2corr.ast_leg(chk, 80 if chk.tier == "quick" else 1500)
+    m2corr.exec_leg(chk, 100 if chk.tier == "quick" else 2000, probes=False)
     rng = chk.rng
     chk.cov["rule"] = (
         "generated functions and generators (C01's program space) x a focus among the names they bind or an "
